@@ -23,7 +23,9 @@ def run(payload: dict) -> dict:
         return {"outcome": "skip"}
     except Exception as e:  # noqa: BLE001
         return {"outcome": "exception", "detail": repr(e), "traceback": traceback.format_exc()[-3000:]}
-    return {"outcome": "ok" if r else "violation"}
+    import vf
+
+    return {"outcome": "ok" if r else "violation", "notes": list(vf.NOTES)}
 
 
 def main() -> int:
